@@ -6,5 +6,11 @@ uint32_t vf_st_nbytes; static uint8_t vf_st_bytes[40]; uint32_t vf_st_end, vf_st
 void vf_st_setbyte(uint32_t i, uint32_t v) { if (i < 40) vf_st_bytes[i] = (uint8_t)v; }   /* session script and observations (set / read by the harness) */
 static uint32_t pos;
 uint64_t vfx_read(uint32_t fd, uint8_t* buf, uint64_t n) { (void)fd; if (n < 1) return 0; if (pos < vf_st_nbytes) { buf[0] = vf_st_bytes[pos++]; return 1; } if (vf_st_end) { errno = EAGAIN; return (uint64_t)-1; } return 0; }
-uint64_t vfx_write(uint32_t fd, uint8_t* buf, uint64_t n) { (void)fd; (void)buf; vf_st_nwrite++; return n; }
+#ifndef VF_REAL
+uint64_t vfx_st_write(uint32_t fd, uint8_t* buf, uint64_t n) { (void)fd; (void)buf; vf_st_nwrite++; return n; }
+#else
+#include <unistd.h>
+#include <sys/syscall.h>
+long vfx_st_write(int fd, const void* buf, unsigned long n) { vf_st_nwrite++; return syscall(SYS_write, fd, buf, n); }   /* real build: counted, then the real write */
+#endif
 uint32_t vfx_close(uint32_t fd) { (void)fd; vf_st_nclose++; return 0; }
